@@ -31,6 +31,7 @@ CUSTOM3U = {  # three contrasting layers whose boundaries are float-unlucky sums
 }
 CUSTOMTEX = {"type": "custom", "texture": [[0.4, 40, 20, 2.5, 100], [2.6, 20, 40, 1.5, 100]]}
 
+TEX60 = {"type": "custom", "texture": [[0.5, 60, 20, 2.5, 100], [3.5, 55, 20, 2.5, 100]]}   # built from texture (pedotransfer function)
 SAND_OVER_CLAY = {"type": "custom", "layers": [[0.3, 0.06, 0.13, 0.36, 3000.0, 100], [3.7, 0.39, 0.54, 0.55, 35.0, 100]]}
 CLAY_OVER_SAND = {"type": "custom", "layers": [[0.4, 0.39, 0.54, 0.55, 35.0, 100], [3.6, 0.06, 0.13, 0.36, 3000.0, 100]]}
 
@@ -47,6 +48,7 @@ SOILS = {
     "custom3": CUSTOM3,
     "custom3u": CUSTOM3U,
     "customtex": CUSTOMTEX,
+    "tex60": TEX60,
 }
 
 CROPS = {
@@ -137,6 +139,8 @@ CROPOPT = {
     "aer15_lag1": {"Aer": 15, "LagAer": 1},
     "sxflat": {"SxTopQ": 0.02, "SxBotQ": 0.02},
     "kcb_fage": {"Kcb": 1.2, "fage": 1.0},
+    "gddlo3": {"GDD_lo": 3.0, "GDD_up": 12.0},      # transpiration fully inhibited below 3 degree days (default 0)
+    "polstress_bands": {"Tmin_up": 12.0, "Tmin_lo": 4.0, "Tmax_up": 38.0, "Tmax_lo": 44.0},
 }
 
 IWC_KINDS = ["WP", "FC", "SAT", "Pct50", "Depth", "DepthWetTop"]
@@ -149,7 +153,7 @@ WINDOWS = {  # (start offset in days relative to first planting, n seasons, trai
 }
 
 WATER_MENUS = {
-    "soil": ["SandyLoam", "Sand", "Clay", "Paddy", "custom3", "ClayLoam", "sandoverclay", "clayoversand", "custom3u"],
+    "soil": ["SandyLoam", "Sand", "Clay", "Paddy", "custom3", "ClayLoam", "sandoverclay", "clayoversand", "custom3u", "customtex", "tex60"],
     "dz": ["d12", "nonuni", "deep30", "few8"],
     "iwc": IWC_KINDS,
     "irr": ["none", "smt", "smt100e70", "int3", "sched", "net80", "net50", "net100", "const8e70", "const40e40", "smt_cap60", "smt_e72.5", "const8e87.75", "int3e62.5"],
@@ -349,6 +353,10 @@ WATER_BASES = [
     _b(soil="ClayLoam", iwc="Pct50", irr="net50", word="showers", crop="cotton.2", off=True, win="w2", dz="nonuni"),
     # bunds and mulches together on slowly draining soil with showers: shallow ponds that evaporation uses up within a day or two
     _b(soil="Paddy", iwc="SAT", field="bunds_mulch", word="showers", crop="rice.2", irr="none"),
+    # chilly days (0 < degree days < a raised GDD_lo) under a developed canopy
+    _b(soil="Loam", iwc="FC", irr="smt", word="chilly", crop="maize.2", cropopt="gddlo3"),
+    # a soil built from texture, started at wilting point under drought (the surface compartments are dried to air dry)
+    _b(soil="tex60", iwc="WP", irr="none", word="dry", crop="maize.2"),
     # three contrasting layers with float-unlucky boundaries under a shallow table (every compartment is driven to its own layer's limits)
     _b(soil="custom3u", iwc="Pct50", gw="0.8", dz="nonuni", word="dry", crop="cotton.2", irr="none"),
 ]
